@@ -15,6 +15,8 @@ import numpy as np
 
 def default_theta(name):
     """deterministic non-degenerate default for parameters a counterexample does not constrain"""
+    if name == "lr" or name.startswith("lr["):
+        return 0.125  # learning rates must be positive for the real optimizers
     h = zlib.crc32(name.encode()) % 19
     return (h - 9) / 8.0 if h != 9 else 0.625
 
